@@ -163,13 +163,18 @@ static void dump(int ci, const char* why) {
     if (!g_trace || c == NULL) return;
     ms = &c->blockState.matchState; ws = &c->workspace; ap = &c->appliedParams;
     printf("D %d %s init=%d static=%d", ci, why, c->initialized, c->staticSize != 0);
+    {   int const chain = ZSTD_allocateChainTable(ap->cParams.strategy, ap->useRowMatchFinder, 0);
+        int const row = ZSTD_rowMatchFinderUsed(ap->cParams.strategy, ap->useRowMatchFinder);
+        printf(" wl=%u cl=%u hl=%u sl=%u mm=%u tl=%u strat=%d row=%d chain=%d h3=%u ldm=%d nbw=%d stage=%d",
+               ap->cParams.windowLog, ap->cParams.chainLog, ap->cParams.hashLog, ap->cParams.searchLog, ap->cParams.minMatch,
+               ap->cParams.targetLength, (int)ap->cParams.strategy, row, chain, ms->hashLog3, ap->ldmParams.enableLdm == ZSTD_ps_enable,
+               ap->nbWorkers, (int)c->stage);
+    }
     if (c->initialized) {
         ull tb = 0, reach = 0, nz = 0;
         ull const pledged = c->pledgedSrcSizePlusOne - 1;
         size_t need;
-        int const chain = ZSTD_allocateChainTable(ap->cParams.strategy, ap->useRowMatchFinder, 0);
-        int const row = ZSTD_rowMatchFinderUsed(ap->cParams.strategy, ap->useRowMatchFinder);
-        if (ap->nbWorkers == 0 || 1) count_tables(c, &tb, &reach, &nz);
+        if (ap->nbWorkers == 0) count_tables(c, &tb, &reach, &nz);
         need = 0;
         if (ap->nbWorkers == 0 && (ap->ldmParams.enableLdm != ZSTD_ps_enable || ap->ldmParams.minMatchLength != 0))
             need = ZSTD_estimateCCtxSize_usingCCtxParams_internal(&ap->cParams, &ap->ldmParams, c->staticSize != 0, ap->useRowMatchFinder,
@@ -177,10 +182,6 @@ static void dump(int ci, const char* why) {
         printf(" idx=%lld ll=%u dl=%u ntu=%u lde=%u dms=%d salt=%llu ent=%u lls=%u",
                (long long)(ms->window.nextSrc - ms->window.base), ms->window.lowLimit, ms->window.dictLimit, ms->nextToUpdate,
                ms->loadedDictEnd, ms->dictMatchState != NULL, (ull)ms->hashSalt, ms->hashSaltEntropy, ms->opt.litLengthSum);
-        printf(" wl=%u cl=%u hl=%u sl=%u mm=%u tl=%u strat=%d row=%d chain=%d h3=%u ldm=%d nbw=%d stage=%d",
-               ap->cParams.windowLog, ap->cParams.chainLog, ap->cParams.hashLog, ap->cParams.searchLog, ap->cParams.minMatch,
-               ap->cParams.targetLength, (int)ap->cParams.strategy, row, chain, ms->hashLog3, ap->ldmParams.enableLdm == ZSTD_ps_enable,
-               ap->nbWorkers, (int)c->stage);
         printf(" tb=%llu reach=%llu nz=%llu need=%zu pledged=%lld", tb, reach, nz, need, (long long)pledged);
     }
     printf(" ws=%llu wsz=%zu oe=%zu te=%zu tve=%zu as=%zu ios=%zu ph=%d af=%d osd=%d",
@@ -270,7 +271,7 @@ static size_t do_stream(int ci, const BYTE* src, size_t len, BYTE* dst, size_t d
             out.dst = dst + opos; out.size = cap; out.pos = 0;
             r = ZSTD_compressStream2(c, &out, &in, dir);
             opos += out.pos;
-            if (first && dumpFirst) { dump(ci, "first"); first = 0; }
+            if (first && dumpFirst) { dump(ci, (sz == 0 && dir == ZSTD_e_continue) ? "first0" : "first"); first = 0; }
             if (ZSTD_isError(r)) return r;
             if (++guard > 50000000) return ERROR(GENERIC);
             if (dir == ZSTD_e_continue) { if (in.pos == in.size) break; }
@@ -365,6 +366,7 @@ int main(void) {
             r = do_stream(c, srcArena, l, dstArena, arenaCap, 0, 1, psz, pdir, 1, caps, 0, 0);
             if (ZSTD_isError(r)) perr("A", r);
             prefSet[c] = 0;
+            printf("A %d\n", c);
             dump(c, "abandon");
         } else if (!strcmp(cmd, "F")) {
             int c, fid, hex; size_t off, len, sa, da, r = 0; char api[32]; BYTE *src, *dst; size_t dstCap;
